@@ -65,6 +65,8 @@ func protocolMore(t *testing.T, bind *Binding, job *Job, p *sdl.Program, acc *st
 		}
 	case "C20":
 		// racesim: real parallelism (waves), the race detector is the oracle
+		progress(job, "run %s", p.ID)
+		utilStress(mix(job.Seed, p.Seed))
 		var comps, closers []string
 		for _, i := range p.Instances {
 			comps = append(comps, p.NameOf(i))
